@@ -110,10 +110,12 @@ def _chain_is_finite(o, limit=64):
     return True
 
 
-def name_token(o, h, idmap=None):
+def name_token(o, h, idmap=None, birth=None):
     n = o.name
     if n is None or n == "":
         return "empty"
+    if birth is not None and n in birth:      # named by an id string the registry knows: always the same token for the same string
+        return birth[n]
     if idmap and n in idmap:          # named by an id: "#" + first handle carrying that id
         return "#" + idmap[n]
     if n == o.id:
@@ -121,7 +123,7 @@ def name_token(o, h, idmap=None):
     return INV_NAMES.get(n, "?" + str(n))
 
 
-def project(objs, extra=None, docof=True):
+def project(objs, extra=None, docof=True, birth=None):
     """objs: handle -> object (None for unborn).  Returns (st, objs2) where objs2 also
     contains the discovered objects."""
     objs = dict(objs)
@@ -161,12 +163,33 @@ def project(objs, extra=None, docof=True):
         oo = objs[hh]
         if oo is not None and kind_of(oo) in ("doc", "sec", "prop"):
             idmap.setdefault(oo.id, hh)
+    if birth is not None:
+        # registry id string -> handle of the object first seen with it (one id per handle: the one it was born with)
+        # every id string gets one token for good when it is first seen: "#h" for the first id seen on handle h (the id it
+        # was born with), "#h~2", ... for ids h is given later; equal strings <-> equal tokens, stable over a history
+        cnt = birth.setdefault("\0count", {})
+        for hh in sorted(objs, key=lambda x: (len(x), x)):
+            oo = objs[hh]
+            if oo is not None and kind_of(oo) in ("doc", "sec", "prop") and oo.id not in birth:
+                cnt[hh] = cnt.get(hh, 0) + 1
+                birth[oo.id] = "#" + hh if cnt[hh] == 1 else "#%s~%d" % (hh, cnt[hh])
     for hh, oo in objs.items():
         if oo is not None and kind_of(oo) in ("sec", "prop"):
-            raw[hh]["name"] = name_token(oo, hh, idmap)
+            raw[hh]["name"] = name_token(oo, hh, idmap, birth)
     st = {"kind": {}, "kids": {}, "plist": {}, "par": {}, "name": {}}
     if docof:
         st["docof"] = {}
+    if birth is not None:
+        # idn[x]: the token of the name x gets when its name is cleared (its current id, as a name token)
+        st["idn"] = {}
+        class _N(object):
+            pass
+        for hh, oo in objs.items():
+            if oo is not None and kind_of(oo) in ("sec", "prop"):
+                fake = _N(); fake.name = oo.id; fake.id = oo.id
+                st["idn"][hh] = name_token(fake, hh, idmap, birth)
+            else:
+                st["idn"][hh] = "-"
     for h, o in list(objs.items()):
         if o is None:
             st["kind"][h] = "unborn"; st["kids"][h] = []; st["plist"][h] = []
